@@ -252,7 +252,8 @@ func (p *Program) findRoles() error {
 				}
 				r.ValidatorIface = n
 				r.ValidateMethod = m.Name()
-			case ps.Len() == 1 && rs.Len() == 1 && isInt(ps.At(0).Type()):
+			case ps.Len() >= 1 && rs.Len() == 1 && isInt(ps.At(0).Type()):
+				// index generation: (source length[, scratch…]) -> list of ints
 				if sl, ok := rs.At(0).Type().Underlying().(*types.Slice); ok && isInt(sl.Elem()) {
 					if r.SubscriptIface != nil {
 						return infra("anchor ambiguous: subscript interface")
